@@ -97,3 +97,27 @@ def expect(cmd, o, blob, expected_items, what):
         raise Violation(f'cli:{cmd}:{what}', f'`{" ".join(argv(cmd, o, "DUMP"))}` prints {len(gl) - 1} lines, expected {len(el) - 1} ({what}); '
                                              f'first difference at line {k}: {gl[k:k + 1]} expected {el[k:k + 1]}')
     return out
+
+
+def invoke_subprocess(cmd, o, blob, hashseed=None, optimize=0, zone=None):
+    """the command line as users start it: a fresh interpreter (`python [-O] -m pykdebugparser ...`), optionally with
+    another string-hash seed, optimisation level or local time zone -> (stdout, stderr tail, exit code)"""
+    import subprocess
+    import sys
+    from .core import REPO_ROOT
+    fd, path = tempfile.mkstemp(prefix='vf-cli-')
+    try:
+        with os.fdopen(fd, 'wb') as f:
+            f.write(blob)
+        env = dict(os.environ, PYTHONPATH=str(REPO_ROOT), FORCE_COLOR='1')
+        env.pop('NO_COLOR', None)
+        if hashseed is not None:
+            env['PYTHONHASHSEED'] = str(hashseed)
+        if zone is not None:
+            env['TZ'] = zone
+        flags = ['-' + 'O' * optimize] if optimize else []
+        r = subprocess.run([sys.executable, *flags, '-m', 'pykdebugparser', *argv(cmd, o, path)], env=env, cwd=str(REPO_ROOT),
+                           capture_output=True, text=True, timeout=280)
+    finally:
+        os.unlink(path)
+    return r.stdout, r.stderr[-400:], r.returncode
